@@ -1,2 +1,3 @@
 //! Generators / writers shared between properties (perf.data, ELF64, Breakpad .sym, …).
 pub mod perfdata;
+pub mod c08;
